@@ -306,15 +306,15 @@ contract(
     i64=False,
     requires=["shape(instance, 0) >= 1 and shape(instance, 1) == shape(instance, 0)"],
     summaries={"if #0": Summary({}, [], "isinstance check"), "call super().__init__ #0": Summary({}, [], "Objective.__init__")},
-    ensures=[tag("C08", "bye-penalty-is-twice-the-largest-distance-plus-one",
-                 "forall(a, 0, shape(instance, 0), forall(b, 0, shape(instance, 0), self.bye_penalty >= 2 * instance[a, b] + 1))"
-                 " and exists(a, 0, shape(instance, 0), exists(b, 0, shape(instance, 0), self.bye_penalty == 2 * instance[a, b] + 1))")],
+    # one-sided: the bye clause and the upper bound need a penalty that exceeds a there-and-back trip over the longest leg
+    ensures=[tag("C08", "bye-penalty-exceeds-twice-the-largest-distance",
+                 "forall(a, 0, shape(instance, 0), forall(b, 0, shape(instance, 0), self.bye_penalty >= 2 * instance[a, b] + 1))")],
 )
 
 
 # ====================================================================== C08: the declared upper bound n * days * bye_penalty
 _YD = ["n >= 1", "0 <= team", "team < n", "forall(dd, 0, D, forall(t, 0, n, -n <= y[dd, t] and y[dd, t] <= n))"]
-_DB = ["forall(a, 0, n, forall(b, 0, n, 0 <= dist[a, b] and dist[a, b] <= M))", "M >= 0", "bye == 2 * M + 1"]
+_DB = ["forall(a, 0, n, forall(b, 0, n, 0 <= dist[a, b] and dist[a, b] <= M))", "M >= 0", "bye >= 2 * M + 1"]
 lemma("loc_range", {"y": "arr2", "team": "int", "d": "int", "n": "int", "D": "int"},
       _YD + ["d <= D"], "0 <= loc(y, team, d) and loc(y, team, d) < n", induct="d", base="0",
       note="a team is always at the home of some team")
@@ -330,8 +330,7 @@ lemma("total_bound", {"y": "arr2", "dist": "arr2", "bye": "int", "D": "int", "t"
       "0 <= total_len(y, dist, bye, D, t) and total_len(y, dist, bye, D, t) <= t * D * bye",
       induct="t", base="0", uses=["team_bound(y, dist, bye, t - 1, D, n, D, M)", "loc_range(y, t - 1, D, n, D)"])
 
-_GPL_INV = ["forall(a, 0, n, forall(b, 0, n, 0 <= dist[a, b] and bye >= 2 * dist[a, b] + 1))",
-            "exists(a, 0, n, exists(b, 0, n, bye == 2 * dist[a, b] + 1))"]
+_GPL_INV = ["forall(a, 0, n, forall(b, 0, n, 0 <= dist[a, b] and bye >= 2 * dist[a, b] + 1))"]
 contract(
     PL + ":GamePlanLength.evaluate",
     props="C08",
@@ -353,12 +352,13 @@ contract(
     props="C08",
     params={}, ghosts={"bye": PYINT, "n": PYINT, "rounds": PYINT}, i64=False, returns=PYINT,
     attrs={"self.instance.n_cities": "n", "self.instance.rounds": "rounds", "self.bye_penalty": "bye"},
-    ensures=[tag("C08", "declared-upper-bound", "result == n * ((n - 1) * rounds) * bye")],
+    # one-sided: any declared upper bound from n * days * bye_penalty upwards is valid
+    ensures=[tag("C08", "declared-upper-bound-is-valid", "result >= n * ((n - 1) * rounds) * bye")],
 )
 contract(
     PL + ":GamePlanLength.lower_bound",
     props="C08", params={}, i64=False, returns=PYINT,
-    ensures=[tag("C08", "declared-lower-bound", "result == 0")],
+    ensures=[tag("C08", "declared-lower-bound-is-valid", "result <= 0")],
 )
 
 
@@ -393,11 +393,10 @@ lemma("bye_increases", {"y": "arr2", "y2": "arr2", "dist": "arr2", "bye": "int",
             "loc_range(y, team, D, n, D)", "loc_range(y2, team, D, n, D)"],
       note="C08 bye clause: total_len(y2, ..., n) > total_len(y, ..., n)")
 lemma("bye_clause", {"y": "arr2", "y2": "arr2", "dist": "arr2", "bye": "int", "team": "int", "e": "int", "n": "int", "D": "int"},
-      _Y2 + ["forall(a, 0, n, forall(b, 0, n, 0 <= dist[a, b] and bye >= 2 * dist[a, b] + 1))",
-             "exists(a, 0, n, exists(b, 0, n, bye == 2 * dist[a, b] + 1))"],
+      _Y2 + ["forall(a, 0, n, forall(b, 0, n, 0 <= dist[a, b] and bye >= 2 * dist[a, b] + 1))"],
       "total_len(y2, dist, bye, D, n) > total_len(y, dist, bye, D, n)",
       uses=["bye_increases(y, y2, dist, bye, team, e, n, n, D, (bye - 1) // 2)"],
-      note="the statement's bye clause under the class invariant of GamePlanLength (bye_penalty = 2 * max distance + 1)")
+      note="the statement's bye clause under the class invariant of GamePlanLength (bye_penalty >= 2 * max distance + 1)")
 
 
 # ====================================================================== C15: the search-space generator and the decoder agree on the game code
